@@ -50,6 +50,7 @@ type Net struct {
 	silenced map[string]bool // packets sent *by* this endpoint vanish silently
 	blocked  map[string]bool // sends by this endpoint block until ctx is done
 	failing  map[string]bool // sends by this endpoint fail at once
+	lag      map[string]time.Duration // sends by this endpoint return late
 	// Describe turns a serialized packet into trace fields.
 	Describe func(b []byte) []any
 }
@@ -70,6 +71,7 @@ func New(rec *trace.Recorder, latency time.Duration, d Decider,
 		silenced: map[string]bool{},
 		blocked:  map[string]bool{},
 		failing:  map[string]bool{},
+		lag:      map[string]time.Duration{},
 		Describe: describe,
 	}
 }
@@ -109,6 +111,16 @@ func (n *Net) Block(e string, on bool) {
 func (n *Net) Fail(e string, on bool) {
 	n.mu.Lock()
 	n.failing[e] = on
+	n.mu.Unlock()
+}
+
+// SetSendLag makes every later send by endpoint e return only d after the
+// packet was put on the link (a stream write that returns when the relay has
+// taken the message, while the packet is already on its way): the peer's
+// answer can arrive before the send call has returned.
+func (n *Net) SetSendLag(e string, d time.Duration) {
+	n.mu.Lock()
+	n.lag[e] = d
 	n.mu.Unlock()
 }
 
@@ -212,6 +224,7 @@ func (n *Net) SendFunc(e string) func(ctx context.Context, b []byte) error {
 		blocked, silenced := n.blocked[e], n.silenced[e]
 		failing := n.failing[e]
 		decide := n.Decide
+		lag := n.lag[e]
 		n.mu.Unlock()
 		if failing {
 			return errors.New("vnet: transport failed")
@@ -232,6 +245,18 @@ func (n *Net) SendFunc(e string) func(ctx context.Context, b []byte) error {
 			f = decide(e, idx, b, time.Since(n.start))
 		}
 		n.enqueue(e, b, f, "tx")
+		// (not for the FIN: Close sends it under a sync.Once, and a second
+		// Close waiting there is not a durable block for synctest, so
+		// virtual time could not advance to end the lag)
+		if lag > 0 && !(len(b) > 0 && b[0] == 0x05) {
+			t := time.NewTimer(lag)
+			defer t.Stop()
+			select {
+			case <-ctx.Done():
+				return ctx.Err()
+			case <-t.C:
+			}
+		}
 		return nil
 	}
 }
